@@ -59,7 +59,7 @@ type Conc struct {
 	Pools *Pools
 	Root  string
 	db    *sod.DB
-	uuids map[int]string
+	uuids []string // by lid; a slice, not a map: client tasks share it
 	hist  []hEvent
 	V     *Violation
 	Stats map[string]int
@@ -70,11 +70,16 @@ type Conc struct {
 func (c *Conc) record(e hEvent) { c.hist = append(c.hist, e) }
 
 //go:norace
-func (c *Conc) uuidOf(lid int) string { return c.uuids[lid] }
+func (c *Conc) uuidOf(lid int) string {
+	if lid < 0 || lid >= len(c.uuids) {
+		return ""
+	}
+	return c.uuids[lid]
+}
 
 //go:norace
 func (c *Conc) setUUID(lid int, u string) {
-	if _, ok := c.uuids[lid]; !ok {
+	if lid >= 0 && lid < len(c.uuids) && c.uuids[lid] == "" {
 		c.uuids[lid] = u
 	}
 }
@@ -608,7 +613,7 @@ func RunConc(p Params) *Result {
 			idx++
 		}
 	}
-	c := &Conc{W: w, Cfg: cfg, Pools: pools, Root: "/db", uuids: map[int]string{}, Stats: map[string]int{}, async: cfg.Async}
+	c := &Conc{W: w, Cfg: cfg, Pools: pools, Root: "/db", uuids: make([]string, 4096), Stats: map[string]int{}, async: cfg.Async}
 	Setup(w, cfg)
 	cfg0 := *cfg
 	var lin porcupine.CheckResult = porcupine.Ok
